@@ -1637,6 +1637,30 @@ class Interp:
                 if r.variant == "Some":
                     out.append(r.payload[0])
             return out
+        if name == "map_while":
+            out = []
+            for x in recv:
+                r = self.call_value(args[0], [x])
+                if not (isinstance(r, Enum) and r.variant == "Some"):
+                    break
+                out.append(r.payload[0])
+            return out
+        if name == "take_while":
+            out = []
+            for x in recv:
+                if not self.branch(to_bool(self.call_value(args[0], [x]))):
+                    break
+                out.append(x)
+            return out
+        if name == "skip_while":
+            out = []
+            dropping = True
+            for x in recv:
+                if dropping and self.branch(to_bool(self.call_value(args[0], [x]))):
+                    continue
+                dropping = False
+                out.append(x)
+            return out
         if name == "for_each":
             for x in recv:
                 self.call_value(args[0], [x])
